@@ -7,6 +7,28 @@ PROP = "C05"
 CONTROL = ["print", "var", "set", "if", "else", "while", "for", "break", "continue", "block", "arith", "fn", "call", "return", "exprstmt"]
 
 
+BINOPS = ["+", "-", "*", "/", "%", "<", ">", "<=", ">=", "==", "!=", "&", "|", "^", "<<", ">>", "&&", "||", ".."]
+
+
+def assignment_target_cases():
+    """`=` binds loosest and is right associative: an assignment is an expression only where an expression of assignment level
+    may stand.  Directly after an operand of ANY other operator (prefix or infix), `<target> = v` is not an assignment to
+    <target> but an error ('Invalid assignment target.') - for every kind of target and every operator, and the same text with
+    parentheses around the assignment is valid.  (The precedence table is the specification's: yprog.PREC.)"""
+    pre = ("class O {\n#[constructor]\nfn new(self) { self.x = 1; }\n}\nvar o = O.new();\nvar a = 1;\nvar v = [1, 2];\nfn f() { return o; }\n")
+    targets = ["a", "o.x", "v[0]", "f().x", "o.x.y", "v[0][0]"]
+    cases = []
+    for t in targets:
+        for op in BINOPS:
+            cases.append((pre + "var r = 2 %s %s = 5;\n" % (op, t), 9, "2 %s %s = 5" % (op, t)))
+        for op in ("!", "-", "~"):
+            cases.append((pre + "var r = %s%s = 5;\n" % (op, t), 9, "%s%s = 5" % (op, t)))
+        cases.append((pre + "print(1, 2 + %s = 5);\n" % t, 9, "argument 2 + %s = 5" % t))
+    valid = [(pre + "var r = 2 * (%s = 5);\nprint(r);\n" % t, ["10"]) for t in ("a", "o.x", "v[0]")]
+    valid += [(pre + "var r = %s = 5;\nprint(r);\n" % t, ["5" if t != "v[0]" else "nil"]) for t in ("a", "o.x", "v[0]")]
+    return cases, valid
+
+
 def main(tier, seed):
     q = tier == "quick"
     plan = [
@@ -27,6 +49,39 @@ def main(tier, seed):
     loops = [p for p in scenarios.capture_scenarios() + scenarios.capture_order_scenarios() if p[0].split(":")[1] in ("while", "for", "while-break", "for-continue")]
     bins = [("dev", vlib.build_harness("dev")), ("release", vlib.build_harness("release"))]
     profcheck.run_scenarios(rep, "loopexits", loops, bins, PROP)
+    # operators on operands of every kind (the adversarial pool of Natives.tla): which operand combinations an operator accepts,
+    # and the class and text of the error for the others; indexing, index assignment and range construction likewise
+    from checks import c02
+    ncases = []
+    nstates = 0
+    for form in ("binop", "unop", "index", "setindex", "range"):
+        cs, n_ = c02.tlc_cases(rep, form, tier)
+        ncases += [c for c in cs if c["r"]["c"] != "trigger"]      # the cases of recorded C02 findings (host aborts) are C02's
+        nstates += n_
+    save_prop = c02.PROP
+    c02.PROP = PROP
+    try:
+        nn, _kinds = c02.run_natives(rep, bins, ncases)
+    finally:
+        c02.PROP = save_prop
+    rep.coverage["states"] += nstates
+    rep.coverage["traces_validated_against_impl"] += nn
+    rep.coverage["operator_operand_cases"] = nn
+    # assignment is not an operand
+    bad, good = assignment_target_cases()
+    items = [{"id": i, "main": src, "gc": "default"} for i, (src, _l, _w) in enumerate(bad)] + [{"id": 10000 + i, "main": src, "gc": "default"} for i, (src, _w) in enumerate(good)]
+    replies = vlib.Pool(bins[0][1], "run").map(items)
+    for (src, line, what), r in zip(bad, replies[:len(bad)]):
+        run = r.get("runs", [{}])[0]
+        want = '[module "main", line %d] Error at \'=\': Invalid assignment target.' % line
+        if run.get("ok") is not False or run.get("kind") != "CompileError" or want not in run.get("messages", []):
+            rep.violation("`%s` must be rejected with %r; got %r" % (what, want, {k: run.get(k) for k in ("ok", "kind", "messages", "out")} if run else r), {"source": src})
+    for (src, want), r in zip(good, replies[len(bad):]):
+        run = r.get("runs", [{}])[0]
+        if not run.get("ok") or run.get("out") != want:
+            rep.violation("a parenthesised / top-level assignment must be accepted and print %r; got %r" % (want, run or r), {"source": src})
+    rep.coverage["assignment_target_cases"] = len(bad) + len(good)
+    rep.coverage["traces_validated_against_impl"] += len(bad) + len(good)
     rep.coverage["exhaustive"] = True
     rep.coverage["rule"] = ("every expression of <= 4 (thorough 5) nodes over 13 operand values of every kind x 16 binary, 3 unary operators, "
                             "and/or, range (printed with minimal parentheses from the specification's precedence table); every control-flow "
